@@ -515,7 +515,17 @@ pub fn c18_blackbox(run: &mut Run) {
                         }
                     }
                 }
-                if !ok || legal_moves(&h.end).len() < 2 {
+                // one session in four starts with a sparse ending instead (king and pawn(s) or a
+                // rook against the bare king): only there does the search get deep enough within
+                // seconds for principal variations of 25-30 moves (line-length limits, PV capacities)
+                let sparse = sid % 4 == 3 && i == 0;
+                if sparse {
+                    let fen = *rng.pick(&["8/8/8/4k3/8/8/4P3/4K3 w - -", "8/4p3/8/8/4K3/8/8/4k3 b - -", "8/8/8/3k4/8/3K4/3P4/8 w - -", "8/8/4k3/8/8/2P1K3/8/8 w - -", "8/p7/8/8/8/8/7P/K6k w - -", "8/8/8/3k4/8/8/P6P/4K3 w - -"]);
+                    let p = Pos::parse_fen(fen).unwrap();
+                    h = History { start: p.clone(), moves: vec![], end: p };
+                    acc.feature("long_search_on_a_sparse_ending");
+                }
+                if !sparse && (!ok || legal_moves(&h.end).len() < 2) {
                     continue;
                 }
                 if !s.isready(WATCHDOG) {
@@ -523,7 +533,7 @@ pub fn c18_blackbox(run: &mut Run) {
                 }
                 let h = &h;
                 s.position(h);
-                let ms = 1200 + rng.below(1800) as u32;
+                let ms = if sparse { 5200 + rng.below(800) as u32 } else { 1200 + rng.below(1800) as u32 };
                 let mut g = s.go(&slice_args(h.end.stm, ms, &mut rng), WATCHDOG);
                 if g.bestmove.is_none() {
                     acc.inconclusive.push("long blackbox go not answered".into());
@@ -535,6 +545,8 @@ pub fn c18_blackbox(run: &mut Run) {
                 let mut per_depth: HashMap<u64, (u64, u64, u64)> = HashMap::new();
                 for l in &g.info_lines {
                     if let Ok(inf) = parse_info(l, true) {
+                        acc.max("max_pv_moves_on_a_line", inf.pv.len() as u64);
+                        acc.max("max_depth_on_a_line", inf.depth);
                         let e = per_depth.entry(inf.depth).or_insert((0, u64::MAX, 0));
                         e.0 += 1;
                         e.1 = e.1.min(inf.time.unwrap_or(0));
@@ -550,7 +562,7 @@ pub fn c18_blackbox(run: &mut Run) {
             acc
         });
         for a in res {
-            run.acc.merge(a, &[]);
+            run.acc.merge(a, &["max_pv_moves_on_a_line", "max_depth_on_a_line"]);
         }
     }
 }
